@@ -16,7 +16,7 @@ PROPERTY = "C10"
 LEVEL = "model_checking"
 ASSUMPTIONS = [
     "level value tables are swapped for a permissive table (ordering patterns real) so that levels 1 and 66 can be used with tiny formats",
-    "pool of 17 conformant and 14 non-conformant sequences (independent builder + real encoder; the non-conformant ones break rules at the start, in the middle and at the end of a sequence); all lists up to length 3 (quick) / 4 (thorough, reduced pool)",
+    "pool of 17 conformant and 16 non-conformant sequences (independent builder + real encoder; the non-conformant ones break rules at the start, in the middle and at the end of a sequence); all lists up to length 3 (quick) / 4 (thorough, reduced pool)",
 ]
 M32 = 1 << 32
 
@@ -74,6 +74,11 @@ def sequence_pool():
     add("bad-header-changed", [B.seq_header(hq2), B.picture(hq2, 0), B.seq_header(hq2.but(frame_rate=("preset", 3))), B.end_of_sequence()], ok=False)
     add("bad-slice-fragment-first", [B.seq_header(hq3), B.fragment_slices(hq3, 0, 0, 1), B.end_of_sequence()], ok=False)
     add("bad-ld-picture-in-hq", [B.seq_header(hq2), B.picture(ld1.but(major_version=2), 0), B.end_of_sequence()], ok=False)
+    # a sequence whose very first byte is not the parse_info prefix: zero bytes, where a reader
+    # could confuse "a byte of value 0" with "no byte"
+    good = pool_[1][1]
+    add_raw("bad-first-byte-zero", b"\x00" + good[1:], ok=False)
+    add_raw("bad-zero-bytes", b"\x00" * 13, ok=False)
     return pool_
 
 
@@ -172,7 +177,7 @@ def run(ctx):
         for i, (name, data, ok) in enumerate(get_pool()):
             k, e, pics = run_alone(data)
             if (k == "accept") != ok:
-                total.error("pool member %s: expected %s, validator says %s:%s" % (name, "accept" if ok else "reject", k, e))
+                total.violation("sequence %s alone: built to be %s, validator says %s:%s" % (name, "conformant" if ok else "non-conformant", k, e), {"list": [i]})
     n = 64
     total.merge(pool.map_shards(_shard, [(ctx.tier, w, n) for w in range(n)]))
     lists = all_lists(ctx.tier)
